@@ -139,7 +139,9 @@ def noise_leaf(rng, kind):
             n.update(eq=True, level=60)         # equalize=True: a second filter state (the calibration's impulse response)
         return n
     if kind == 'firnoise':
-        return {'t': 'firnoise', 'fs': fs, 'seed': rng.randint(0, 20), 'level': 60, 'fl': 2000, 'fh': 8000,
+        # (band edges as floats: with integer fl / fh the library truncates the scale factor to an integer -- np.full_like
+        # on an integer array -- and a level below the calibration's reference yields pure silence; levels are C08's)
+        return {'t': 'firnoise', 'fs': fs, 'seed': rng.randint(0, 20), 'level': 60, 'fl': 2000.0, 'fh': 8000.0,
                 'ntaps': rng.choice([101, 401])}
     return {'t': 'shaped', 'fs': fs, 'seed': rng.randint(0, 20), 'level': 1.0, 'fl': 2000, 'fh': 8000,
             'ntaps': rng.choice([101, 401])}
@@ -241,6 +243,10 @@ def defaults_tree(rng, tree):
         S.to_defaults(n)
         if rng.random() < 0.5:
             n['kw'] = True
+        if n['t'] == 'samtone' and rng.random() < 0.5:
+            # `equalize` (sidebands scaled at their own frequencies) shows only through a calibration that depends on
+            # frequency: the calibration is given, the options after it are left out
+            n.update(cal='interp', level=80, kw=True)
         if 'in' not in n:
             break
         n = n['in']
@@ -291,15 +297,22 @@ def big_tree(rng, cls):
     return car
 
 
-def one_param_twin(rng, tree):
-    """A copy of `tree` differing in exactly one parameter of its top node (HARDENING item 7)."""
+def one_param_twin(rng, tree, key=None):
+    """A copy of `tree` differing in exactly one parameter of its top node (HARDENING item 7); `key`: which one
+    (gate / envelope nodes)."""
     t2 = copy.deepcopy(tree)
     fs = tree.get('fs', 1000.0)
     t = tree['t']
     if t in ('gate', 'env'):
-        key = rng.choice(['start', 'dur'] + (['window'] if t == 'env' and tree['window'] != 'cos2factory' else []))
+        plain = t == 'env' and tree['window'] != 'cos2factory'
+        key = key or rng.choice(['start', 'dur'] + (['window', 'transform', 'transform'] if plain else []))
+        if key in ('window', 'transform') and not plain:
+            key = 'start'
         if key == 'window':
             t2['window'] = rng.choice([w for w in S.WINDOWS if w != tree['window']])
+        elif key == 'transform':     # the same envelope with / without a pointwise transform (an optional callable)
+            if t2.pop('transform', None) is None:
+                t2['transform'] = rng.choice(sorted(S.TRANSFORMS))
         else:
             t2[key] = tree[key] + rng.choice([1, 2]) / fs
     elif t == 'sam':
@@ -402,6 +415,52 @@ def sq_nodes(node):
 def sqwave_nodes(node):
     out = [node] if node['t'] == 'sqwave' else []
     return out + (sqwave_nodes(node['in']) if 'in' in node else [])
+
+
+_TIES = []
+
+
+def square_ties():
+    """(fs, fm, d): modulation frequencies (integer or half-integer Hz, period 1.5 .. 200 samples) at the sampling rates
+    the properties name whose period start k * fs / fm lies EXACTLY on x.5 for k = d, 3d, 5d, ... (d <= 40), computed
+    in exact rational arithmetic.  There the rounded start of a period is decided by the last bit of the float product:
+    an implementation that obtains it in a way that depends on where the chunk began (an accumulated sum, say) shifts
+    one period by a sample.  Random (fs, fm) almost never hit such a tie."""
+    if not _TIES:
+        from fractions import Fraction
+        for fs in (25000.0, 44100.0, 48828.125, 97656.25, 100000.0, 195312.5):
+            F = Fraction(fs)
+            for m in range(max(int(2 * fs / 200), 1), int(2 * fs / 1.5) + 1):      # fm = m / 2
+                g = 4 * F / m           # k * fs / fm = k * g / 2: a tie iff k * g is an odd integer
+                if g.numerator % 2 == 1 and g.denominator <= 40:
+                    _TIES.append((fs, m / 2, g.denominator))
+    return _TIES
+
+
+def sqtie_cases(rng, npairs):
+    """Square-wave envelopes with an exact .5 tie of a period start, at least six periods into the stimulus where
+    possible: one chunk per period (boundaries at floor / ceil of the period starts), a single boundary 1..3 periods
+    before the tie (+-1 sample), and the fragment function asked from those boundaries."""
+    from fractions import Fraction
+    for fs, fm, d in rng.sample(square_ties(), min(npairs, len(square_ties()))):
+        P = Fraction(fs) / Fraction(fm)
+        ks = [k for k in range(d, 41, 2 * d)]
+        k = rng.choice([x for x in ks if x >= 6] or ks)
+        n = int((k + 3) * P) + 2
+        duty = rng.choice([0.5, 0.5, 0.25, 0.75, round(rng.random(), 3)])
+        node = {'t': 'sqenv', 'fs': fs, 'depth': rng.choice([1.0, 0.5]), 'fm': fm, 'duty': duty, 'alpha': 0,
+                'in': rng.choice([{'t': 'silence', 'fill': 1}, {'t': 'tone', 'fs': fs, 'frequency': fs / 7.3, 'level': 1.0}])}
+        starts = [i * P for i in range(1, k + 4)]
+        per = S.cuts_to_chunks([int(x) + rng.choice([0, 1]) for x in starts], n)
+        yield {'kind': 'factory', 'cls': 'sqenv', 'tree': node, 'chunks': per, 'tag': 'sqtie'}
+        for j in rng.sample([1, 2, 3], 2):
+            if k - j < 0:
+                continue
+            cut = int((k - j) * P) + rng.choice([-1, 0, 1, 2])
+            if 0 < cut < n:
+                yield {'kind': 'factory', 'cls': 'sqenv', 'tree': node, 'chunks': [cut, n - cut], 'tag': 'sqtie'}
+                yield {'kind': 'square_fn', 'fs': fs, 'depth': node['depth'], 'fm': fm, 'duty': duty, 'alpha': 0,
+                       'off': cut, 'n': n - cut, 'tag': 'sqtie'}
 
 
 MODEL_COST = 4e7     # the model's stride loops are O(chunk length x periods in the chunk)
@@ -514,6 +573,7 @@ class C01(Spec):
     PROOF_MODULES = ['PsiProofs.C01']
     DESIGN_REF = 'DESIGN.md §6 C01'
     PARALLEL = 16
+    CASE_TIMEOUT = 60       # CPU seconds per case (the largest legitimate cases take a few seconds)
     TRUST = [
         'modelled, not verified: np.cos/np.sin are pointwise in their argument; RandomState.uniform(size=n) consumes a '
         'stream; scipy.signal.lfilter with zi is a state machine fed one sample at a time; np.concatenate, basic '
@@ -714,6 +774,26 @@ class C01(Spec):
                     c['pristine'] = True
                     n_pristine -= 1
                 yield c
+        # item 7 (siblings): two stimuli that differ in exactly ONE optional argument (transform callable or none, window
+        # name, start, duration; modulation depth / delay ...) built one after the other in this process and drawn with
+        # IDENTICAL chunking, in both orders; the reference of the second comes from a separate interpreter in which the
+        # first never existed (a module-level memo whose key forgets one argument hands one the other's fragments)
+        for cls in ('env', 'env', 'env', 'cos2', 'gate', 'sam', 'sqenv'):
+            for i in range(10 if quick else 50):
+                tree = make_tree(rng, cls)
+                if cls == 'env' and tree['window'] == 'cos2factory':
+                    tree['window'] = 'cosine-squared'
+                t2 = one_param_twin(rng, tree, key=['transform', 'window', 'start', 'dur'][i % 4] if cls == 'env' else None)
+                if t2 is None:
+                    continue
+                if i % 2:
+                    tree, t2 = t2, tree
+                n, marks = self.pick_n(rng, tree)
+                chunks = rng.chunks(n, 6) if rng.random() < 0.5 else S.boundary_chunks(rng, n, marks)
+                yield {'kind': 'factory', 'cls': cls, 'tree': tree, 'chunks': chunks, 'tag': 'sib',
+                       'twin': {'tree': t2, 'chunks': list(chunks)}}
+        # item 4 (exact ties): square-wave periods whose start lies exactly on x.5 samples
+        yield from sqtie_cases(rng, 40 if quick else 300)
         # item 3: far beyond the usual sizes; tiny and huge requests mixed; thousands of draws
         for cls in ('tone', 'gate', 'env', 'sam', 'sqenv', 'sqwave', 'fixed', 'notch', 'repeat'):
             for _ in range(1 if quick else 4):
@@ -833,6 +913,41 @@ class C01(Spec):
                        'fc': rng.uniform(100, fs / 4), 'fm': rng.uniform(2, 90), 'level': rng.choice([1.0, 0.37]),
                        'phase': 0, 'polarity': 1, 'off': rng.choice([0, rng.randint(1, 5000)]), 'n': rng.randint(1, 300),
                        'route': 'short', 'tag': 'dflt'}
+
+        # siblings at function level: the same fragment request for two envelopes that differ in one argument (transform
+        # callable or none, window, start, duration, rise; SAM depth / frequency / delay), one right after the other
+        for i in range(nfn // 3):
+            fs = rng.choice(S.FS_LIST)
+            if i % 3 < 2:
+                e = env(rng, fs, None, span=300, window=rng.choice(S.WINDOWS), valid=True)
+                lb, dur, rise = S.env_ints(e)
+                r = dur // 2 if rise is None else rise
+                off = max(1, rng.choice([lb, lb + r, lb + dur - r, lb + dur]) + rng.randint(-2, 2))
+                c = {'kind': 'envelope_fn', 'window': e['window'], 'fs': fs, 'dur': e['dur'], 'rise': e['rise'],
+                     'start': e['start'], 'off': off, 'n': rng.choice([1, 2, rng.randint(1, 300)]), 'tag': 'sib'}
+                key = ['transform', 'transform', 'window', 'start', 'dur'][i % 5]
+                if key == 'transform':
+                    tf = rng.choice(sorted(S.TRANSFORMS))
+                    if i % 2:
+                        c['transform'] = tf
+                        c['sib'] = {'transform': None}
+                    else:
+                        c['sib'] = {'transform': tf}
+                elif key == 'window':
+                    c['sib'] = {'window': rng.choice([w for w in S.WINDOWS if w != c['window']])}
+                else:
+                    c['sib'] = {key: c[key] + rng.choice([1, 2]) / fs}
+            else:
+                q = sam(rng, fs, None, span=300)
+                d = int(q['delay'] * fs)
+                c = {'kind': 'sam_fn', 'fs': fs, 'depth': q['depth'], 'fm': q['fm'], 'delay': q['delay'],
+                     'off': max(1, d + rng.randint(-3, 40)), 'n': rng.randint(1, 300), 'tag': 'sib',
+                     'route': rng.choice(['public', None])}
+                key = rng.choice(['depth', 'fm', 'delay'])
+                c['sib'] = {key: {'depth': q['depth'] / 2, 'fm': q['fm'] * 1.5, 'delay': q['delay'] + 1 / fs}[key]}
+                if c['route'] is None:
+                    c.pop('route')
+            yield c
 
     def exhaustive_cases(self):
         fs = 1000.0
@@ -1117,6 +1232,20 @@ class C01(Spec):
         except (ValueError, ZeroDivisionError, MemoryError) as e:
             return type(e).__name__
 
+    def sib_run(self, c):
+        """Sibling case: B = the case itself, A = the case with the `sib` overrides.  Both full envelopes first (B's, then
+        A's: the references exist before either fragment is asked for), then the same fragment request of A and of B."""
+        b = {k: v for k, v in c.items() if k != 'sib'}
+        a = {**b, **c['sib']}
+        if a.get('transform') is None:
+            a.pop('transform', None)
+        base = c.get('base', 0)
+        span = c['off'] + c['n'] - base
+        out = {'fullB': self.call_fn(b, base, span, ref=True), 'fullA': self.call_fn(a, base, span, ref=True)}
+        out['fragA'] = self.call_fn(a)
+        out['fragB'] = self.call_fn(b)
+        return out
+
     def fn_plan(self, c):
         k = c['kind']
         node = dict(c)
@@ -1166,8 +1295,9 @@ class C01(Spec):
                         out.append(self.compare(plan, mout[j], run[i], tol, scale))
                     j += 1
             return out
-        arr = self.call_fn(c)
-        self._last = (C.case_hash(c), arr)
+        sib = self.sib_run(c) if c.get('sib') else None
+        arr = sib['fragB'] if sib else self.call_fn(c)
+        self._last = (C.case_hash(c), arr, sib)
         if not ml:
             return []
         if isinstance(arr, str):
@@ -1224,11 +1354,23 @@ class C01(Spec):
             if c['kind'] == 'factory' and c.get('twin'):
                 return self.twin_oracle(c, runs[len(hs)] if len(runs) > len(hs) else [])
             return None
-        frag = last if last is not None else self.call_fn(c)
-        # the full envelope from sample 0; for offsets beyond 2^31 (no machine holds that envelope) a longer fragment
-        # that starts `back` samples earlier: two slices of one envelope agree where they overlap
         base = c.get('base', 0)
-        full = self.call_fn(c, base, c['off'] + c['n'] - base, ref=True)
+        if c.get('sib'):
+            hit = self._last[2] if self._last and self._last[0] == C.case_hash(c) and len(self._last) > 2 else None
+            sib = hit or self.sib_run(c)
+            # the sibling asked first obeys the property as well (its full envelope was computed before its fragment)
+            fa, fr = sib['fullA'], sib['fragA']
+            if isinstance(fa, str) != isinstance(fr, str):
+                return 'sibling call: fragment and full envelope do not fail alike'
+            if not isinstance(fa, str) and not np.array_equal(fr, fa[c['off'] - base:c['off'] - base + c['n']]):
+                return (f"sibling call {c['sib']} made after the full envelope of the case was computed: its fragment "
+                        f"(offset {c['off']}, samples {c['n']}) differs from the slice of its own full envelope")
+            frag, full = sib['fragB'], sib['fullB']
+        else:
+            frag = last if last is not None else self.call_fn(c)
+            # the full envelope from sample 0; for offsets beyond 2^31 (no machine holds that envelope) a longer fragment
+            # that starts `back` samples earlier: two slices of one envelope agree where they overlap
+            full = self.call_fn(c, base, c['off'] + c['n'] - base, ref=True)
         if isinstance(frag, str) or isinstance(full, str):
             return None if frag == full else f'fragment: {frag if isinstance(frag, str) else "served"}, full: {full if isinstance(full, str) else "served"}'
         want = full[c['off'] - base:c['off'] - base + c['n']]
@@ -1305,7 +1447,7 @@ class C01(Spec):
                 yield {**c, 'n': c['n'] - 1}
             if c['off'] > c.get('base', 0):
                 yield {**c, 'off': c['off'] - 1, 'n': c['n'] + 1}
-            for key in ('route', 'again', 'fsrep'):
+            for key in ('route', 'again', 'fsrep', 'sib'):
                 if key in c:
                     yield {k: v for k, v in c.items() if k != key}
             return
